@@ -152,6 +152,25 @@ def c102(ctx):
         for fld in ("last_timestamp", "smallest_timestamp", "biggest_timestamp"):
             ctx.check(R, f, "updates:" + fld, bool(P.field_writes(f, r"sst::SstBuilder$", fld)), "assign_last_key updates %s" % fld, "assign_last_key no longer updates %s" % fld)
         ctx.check(R, f, "updates:last_key", bool(P.call_points(f, r"Vec.*::extend_from_slice$", arg_pred=K.recv_is_field("last_key"))), "and last_key", "assign_last_key no longer updates last_key")
+        # min and max are tracked independently: every entry is compared with both trackers (an `else if` between them skips the
+        # maximum for an entry that lowers the minimum -- the first entry of every table does)
+        for fld in ("smallest_timestamp", "biggest_timestamp"):
+            tests = []
+            for b in P.switch_blocks(f):
+                srcs = []
+                for c_ in K.cond_sources(f, b.idx):
+                    if c_["k"] == "bin" and c_["op"] in ("Lt", "Le", "Gt", "Ge"):
+                        srcs += P.origins(f, c_["st"]["rv"]["a"]) + P.origins(f, c_["st"]["rv"]["b"])
+                if any(s_["k"] == "field" and s_["f"] == fld for s_ in srcs) and any(s_["k"] == "param" and s_["i"] == 3 for s_ in srcs):
+                    tests.append(P.term_pt(f, b.idx))
+            q = P.must_pass(f, tests) if tests else [0]
+            ctx.check(R, f, "compares:" + fld, bool(tests) and q is None, "every entry's timestamp is compared with %s" % fld,
+                      "an entry can pass assign_last_key without being compared with %s: the table's timestamp range no longer covers its contents" % fld,
+                      path=q if tests else None)
+            for w in P.field_writes(f, r"sst::SstBuilder$", fld):
+                st = f.blocks[w[0]].st[w[1]]
+                ctx.check(R, f, "stores-entry-ts:" + fld, any(s_["k"] == "param" and s_["i"] == 3 for s_ in P.origins(f, st["rv"].get("a"))),
+                          "%s is updated with the entry's timestamp" % fld, "%s is updated with something other than the entry's timestamp" % fld, pt=w)
     f = ctx.fn(R, "sst::SstBuilder::get_block")
     if f:
         fb = ctx.calls(R, f, r"sst::SstBuilder::flush_block$")
